@@ -205,3 +205,42 @@ func zzProposalIDOf(ret []byte) string {
 	}
 	return r.ProposalID
 }
+
+// ZZH_C16_rejected_logout_under_frozen_chain: a service has a pending freeze (or none); its chain
+// admin submits the service's logout (which pauses the freeze proposal); then the chain is frozen
+// (the appchain manager's cascade, which leaves a logouting service alone); then the logout is
+// rejected by a vote. Whatever the rejected logout restores, the service must not be usable for
+// interchain while its chain is frozen.
+func ZZH_C16_rejected_logout_under_frozen_chain() {
+	w, cs := zzFullWorld()
+	w.audit = zz.Choice("audit", 2) == 1
+	zzPutGovAdmins(w, 2)
+	w.putObj(zzRoleAddr, RoleKey(zzAdminIDs[0]), Role{ID: zzAdminIDs[0], RoleType: GovernanceAdmin, Weight: repo.SuperAdminWeight, Status: governance.GovernanceAvailable})
+	chainAdmin := "0xC0"
+	zzPutChainAdmin(w, "chA", chainAdmin)
+	w.putObj(zzAppchainAddr, appchainMgr.AppchainKey("chA"), appchainMgr.Appchain{ID: "chA", ChainName: "chA", ChainType: "fabric", Status: governance.GovernanceAvailable})
+	w.putObj(zzServiceAddr, service_mgr.ServiceKey("chA:s9"), service_mgr.Service{ChainID: "chA", ServiceID: "s9", Name: "s9", Type: service_mgr.ServiceCallContract,
+		Ordered: true, Permission: map[string]struct{}{}, Status: governance.GovernanceAvailable})
+	if zz.Choice("freezePendingFirst", 2) == 1 {
+		_, errA := zzTx(w, cs[zzServiceAddr], zzServiceAddr, zzAdminIDs[1], "FreezeService", []*pb.Arg{pb.String("chA:s9"), pb.String("r")})
+		zz.Assert("C16.rejlogout.freeze-submitted", errA == nil)
+	}
+	retB, errB := zzTx(w, cs[zzServiceAddr], zzServiceAddr, chainAdmin, "LogoutService", []*pb.Arg{pb.String("chA:s9"), pb.String("r")})
+	zz.Assert("C16.rejlogout.logout-submitted", errB == nil)
+	if errB != nil {
+		return
+	}
+	idB := zzProposalIDOf(retB)
+	// the chain is frozen: status and the cascade the appchain manager runs on an approved freeze
+	w.putObj(zzAppchainAddr, appchainMgr.AppchainKey("chA"), appchainMgr.Appchain{ID: "chA", ChainName: "chA", ChainType: "fabric", Status: governance.GovernanceFrozen})
+	_, errP := zzTx(w, cs[zzServiceAddr], zzServiceAddr, zzAppchainAddr, "PauseChainService", []*pb.Arg{pb.String("chA")})
+	zz.Assert("C16.rejlogout.cascade", errP == nil)
+	// the logout is voted down (two admins: one rejection concludes it; the super admin votes)
+	_, errV := zzTx(w, cs[zzGovAddr], zzGovAddr, zzAdminIDs[0], "Vote", []*pb.Arg{pb.String(idB), pb.String(BallotReject), pb.String("r")})
+	zz.Assert("C16.rejlogout.vote", errV == nil)
+	pB, okB := zzProposalOf(w, idB)
+	zz.Assert("C16.rejlogout.rejected", okB && pB.Status == REJECTED)
+	var s service_mgr.Service
+	w.getObj(zzServiceAddr, service_mgr.ServiceKey("chA:s9"), &s)
+	zz.Assert("C16.rejlogout.service-unusable-under-the-frozen-chain", !s.IsAvailable())
+}
